@@ -533,3 +533,68 @@ def nesting_chain_family(max_depth=4):
           dnas = [(l, d) for l, d in dnas if valid(spec, d)]
           out.append(('depth%d/%s/%s%s' % (depth, tname, 'last' if cont_last else 'first', '+sibling' if with_sibling else ''), spec, dnas))
   return out
+
+def mixed_nesting_family(max_depth=4, kinds='OM', terminals=('float', 'choice', 'custom'), arrangements=('siblings', 'candidates', 'subchoices')):
+  """Two branches with IDENTICAL inner locations under a common root.  A branch is a chain of `depth` levels, each level a
+  single choice 'O' (oneof [next, const]), a distinct multi-choice 'M' (manyof 2 of [next, const, const]) or a non-distinct
+  multi-choice 'N' (manyof 2 of [next, const], both subchoices may take `next`), in every sequence over `kinds` of length
+  1..max_depth, ending in a decision point (float / choice / custom) at location 't'.  Level j sits at location 'l<j>' in
+  both branches, so the ids of the two branches differ only in the prefix contributed by the root.  Arrangements:
+    siblings    root Space holds the two branches with their level-0 location renamed to 'a1' / 'a2';
+    candidates  root oneof 'r' with candidates [branch, branch, const];
+    subchoices  root non-distinct manyof(2) 'r' with candidates [branch, const] (both subchoices can take the branch).
+  DNAs: both branches active all the way with different terminal decisions ('both'; for 'candidates' one branch at a time:
+  'first' / 'second'), and one branch stopped at its first level ('one').  Inside an 'N' level of the 'both' DNA the two
+  subchoices both continue, with different terminal decisions.  Returns [(label, spec, [(dna_label, sdna), ...]), ...]."""
+  import itertools
+  const = ('S', [])
+  def c2(loc): return ('C', 1, [const, const], True, False, (loc,), None, ())
+  term_point = {'float': ('F', 0.0, 1.0, ('t',), None), 'choice': c2('t'), 'custom': ('X', ('t',), None)}
+  term_decs = {'float': [('f', 0.25), ('f', 0.75), ('f', 0.5), ('f', 0.125)],
+               'choice': [('c', [(0, [])]), ('c', [(1, [])]), ('c', [(1, [])]), ('c', [(0, [])])],
+               'custom': [('s', 'u'), ('s', 'v'), ('s', 'w'), ('s', 'x y')]}
+  def level(kind, loc, nxt):
+    if kind == 'O': return ('C', 1, [nxt, const], True, False, (loc,), None, ())
+    if kind == 'M': return ('C', 2, [nxt, const, const], True, False, (loc,), None, ())
+    return ('C', 2, [nxt, const], False, False, (loc,), None, ())
+  def branch(seq, tname, loc0):
+    sp = ('S', [term_point[tname]])
+    for j in reversed(range(len(seq))):
+      sp = ('S', [level(seq[j], loc0 if j == 0 else 'l%d' % j, sp)])
+    return sp
+  def branch_dna(seq, tname, counter, stop=False):
+    """Decisions of one branch; `counter` hands out different terminal decisions to the different active copies."""
+    def lvl(j):
+      if j == len(seq):
+        d = term_decs[tname][counter[0] % 4]; counter[0] += 1
+        return [d]
+      k = seq[j]
+      if stop and j == 0:
+        return [('c', [(1, [])])] if k == 'O' else [('c', [(1, []), (2, [])])] if k == 'M' else [('c', [(1, []), (1, [])])]
+      if k == 'O': return [('c', [(0, lvl(j + 1))])]
+      if k == 'M': return [('c', [(0, lvl(j + 1)), (1, [])])]
+      return [('c', [(0, lvl(j + 1)), (0, lvl(j + 1))])]
+    return lvl(0)
+  out = []
+  for depth in range(1, max_depth + 1):
+    for seq in itertools.product(kinds, repeat=depth):
+      for tname in terminals:
+        for arr in arrangements:
+          cnt = [0]
+          if arr == 'siblings':
+            spec = ('S', branch(seq, tname, 'a1')[1] + branch(seq, tname, 'a2')[1])
+            dnas = [('both', branch_dna(seq, tname, cnt) + branch_dna(seq, tname, cnt)),
+                    ('one', branch_dna(seq, tname, cnt, stop=True) + branch_dna(seq, tname, cnt))]
+          elif arr == 'candidates':
+            b = branch(seq, tname, 'l0')
+            spec = ('S', [('C', 1, [b, b, const], True, False, ('r',), None, ())])
+            dnas = [('first', [('c', [(0, branch_dna(seq, tname, cnt))])]), ('second', [('c', [(1, branch_dna(seq, tname, cnt))])]),
+                    ('one', [('c', [(1, branch_dna(seq, tname, cnt, stop=True))])])]
+          else:
+            b = branch(seq, tname, 'l0')
+            spec = ('S', [('C', 2, [b, const], False, False, ('r',), None, ())])
+            dnas = [('both', [('c', [(0, branch_dna(seq, tname, cnt)), (0, branch_dna(seq, tname, cnt))])]),
+                    ('one', [('c', [(1, []), (0, branch_dna(seq, tname, cnt))])])]
+          dnas = [(l, d) for l, d in dnas if valid(spec, d)]
+          out.append(('depth%d/%s/%s/%s' % (depth, ''.join(seq), tname, arr), spec, dnas))
+  return out
